@@ -115,8 +115,14 @@ func parseSstoreStream(t bcase) (p sstoreProg, ok bool) {
 	default:
 		return p, false
 	}
+	// the shape must be exactly the generator's (a shrink candidate with, say, a block gas limit of 0 is
+	// not a case of the stream)
+	if t.env[4].Cmp(big.NewInt(30000000)) != 0 || t.env[5].Cmp(big.NewInt(1)) != 0 || t.env[6].Cmp(big.NewInt(200)) > 0 ||
+		x.feecap.Cmp(t.env[6]) < 0 || x.feecap.Cmp(big.NewInt(1000)) > 0 || x.tipcap.Cmp(x.feecap) != 0 {
+		return p, false
+	}
 	var code []byte
-	found := false
+	found, sender := false, false
 	for _, a := range t.pre {
 		switch {
 		case a.addr.Cmp(x.to) == 0:
@@ -134,11 +140,12 @@ func parseSstoreStream(t bcase) (p sstoreProg, ok bool) {
 			if a.nonce != 0 || len(a.code) != 0 || a.balance.Cmp(pow2(62)) != 0 {
 				return p, false
 			}
+			sender = true
 		case a.addr.BitLen() <= 16: // no other small address may exist (the padding probes must be cold and empty)
 			return p, false
 		}
 	}
-	if !found {
+	if !found || !sender {
 		return p, false
 	}
 	i := 0
